@@ -65,6 +65,22 @@ def cases(tier, seed):
             # blackjax + float32 under jax_enable_x64 is a documented-known limitation (xfail in the repository's tests)
             for smp in samplers + (["blackjax_smc"] if xpn == "jax" and dt != "float32" else []):
                 out.append({"kind": "run", "xp": xpn, "dtype": dt, "sampler": smp, "seed": [seed, 15, len(out)]})
+                if smp == "importance":
+                    continue
+                # preconditioning variants: the transforms must not move populations to another width either
+                pcs = [{"preconditioning": "default", "preconditioning_kwargs": {"affine_transform": True, "bounded_to_unbounded": True}}]
+                if tier == "thorough":
+                    pcs += [
+                        {"preconditioning": "none"},
+                        {"preconditioning": "default", "preconditioning_kwargs": {"affine_transform": True}},
+                        {"preconditioning": "default", "preconditioning_kwargs": {"bounded_to_unbounded": True, "bounded_transform": "probit"}},
+                    ]
+                elif smp not in ("smc", "minipcn"):
+                    pcs = []
+                for pc in pcs:
+                    if smp == "blackjax_smc" and pc["preconditioning"] == "none":
+                        continue
+                    out.append({"kind": "run", "xp": xpn, "dtype": dt, "sampler": smp, "precond": pc, "seed": [seed, 15, len(out)]})
     for backend in ("zuko", "flowjax"):
         for xpn in NS:
             for dt in ([None, "float64"] if tier == "quick" else [None, "float32", "float64"]):
@@ -249,7 +265,9 @@ def run_sampler(case, counters, viol, nontrivial):
         kw = dict(n_steps=3, rng=np.random.default_rng(3))
     elif smp == "emcee":
         kw = dict(nsteps=3)
-    where = f"run xp={xpn} dtype={dt} sampler={smp}"
+    pc = case.get("precond") or {}
+    kw.update({k: (dict(v) if isinstance(v, dict) else v) for k, v in pc.items()})
+    where = f"run xp={xpn} dtype={dt} sampler={smp} precond={pc or 'default'}"
     out = a.sample_posterior(32, sampler=smp, return_history=True, **kw)
     s, h = out
     pops = [("returned", s)]
@@ -278,7 +296,9 @@ def run_sampler(case, counters, viol, nontrivial):
                 viol.append({"mech": "C15/run-population-namespace", "detail": f"{where}: {name}.{fld} is {type(arr).__name__}"})
             if want is not None and width_of(arr) != want:
                 viol.append({"mech": "C15/run-population-width", "detail": f"{where}: {name}.{fld} has width {width_of(arr)}, requested {want}"})
-    nontrivial.add(f"run|{xpn}|{dt}|{smp}")
+    nontrivial.add(f"run|{xpn}|{dt}|{smp}|{pc}")
+    if pc:
+        return
     # output-namespace option
     for b in NS:
         a3, _ = make_aspire(t, xpn, dtype=dt, seed=1)
